@@ -85,6 +85,10 @@ def oracle(case):
     kw = dict(version=version)
     if wrap is not None:
         kw["wrap"] = wrap
+    if case.get("dlm_in_object"):
+        # the object of a tab- or comma-delimited file: the output is written with blanks and says so (DLM SPACE)
+        las.version["DLM"].value = case["dlm_in_object"]
+        out.cls("dlm-in-object-" + case["dlm_in_object"])
     text = attempt(build.write_text, las, **kw)
     vrows = [["VERS", "", ["f", "2.0"], ""], ["WRAP", "", ["s", "NO"], "One line per depth step"],
              ["DLM", "", ["s", "SPACE"], "Column Data Section Delimiter"]]
@@ -287,6 +291,10 @@ def cases(draw):
         r = draw(header_item("V", pool, allow_blank=False))
         vextra.append(r)
     well = items("W", 0, 6)
+    if draw(st.integers(0, 7)) == 0:
+        # items that merely share their name with the ones steering a read: in ~Well they are ordinary items
+        well.append(draw(st.sampled_from([["VERS", "", ["f", "7.1"], "software version"], ["DLM", "", ["s", "SEMICOLON"], "export delimiter"],
+                                         ["WRAP", "", ["s", "YES"], "gift wrap"]])))
     params = items("P", 0, 8)
     nrows = draw(st.integers(1, 3))
     curves = []
@@ -308,6 +316,8 @@ def cases(draw):
                 strt_unit=draw(st.sampled_from(["m", "M", "FT", ""])), null=draw(st.sampled_from([["f", "-9999.25"], ["f", "-999.25"], ["i", -999]])))
     case = dict(desc=desc, version=version, mnemonic_case=draw(st.sampled_from(["preserve", "upper", "lower"])),
                 wrap=draw(st.sampled_from([None, None, True, False])))
+    if draw(st.integers(0, 5)) == 0:
+        case["dlm_in_object"] = draw(st.sampled_from(["TAB", "COMMA"]))
     if draw(st.integers(0, 3)) == 0:
         case["pre"] = dict(mnemonic_case=draw(st.sampled_from(["preserve", "upper", "lower"])),
                            version=draw(st.sampled_from([1.2, 2])))
